@@ -18,6 +18,8 @@ func main() {
 	switch os.Args[1] {
 	case "sweep":
 		os.Exit(cmdSweep(os.Args[2:]))
+	case "factgen":
+		os.Exit(cmdFactgen(os.Args[2:]))
 	case "replay":
 		if len(os.Args) < 3 {
 			fmt.Fprintln(os.Stderr, "usage: verif replay <file>")
